@@ -174,8 +174,9 @@ Section Serialize.
     rewrite forallb_forall in H.
     induction (dvalues (st_fluents s)) as [|f l IH]; [constructor|].
     cbn [map]. constructor.
-    - rewrite pf_state_text_valued. cbn [fst snd]. apply yields_valued_text.
-      + apply H. left. reflexivity.
+    - rewrite pf_state_text_valued by (apply pf_ok_float, H; left; reflexivity).
+      cbn [fst snd]. apply yields_valued_text.
+      + apply pf_ok_atom, H. left. reflexivity.
       + apply Hn. left. reflexivity.
     - apply IH; [intros x Hx; apply H; right; exact Hx|intros x Hx; apply Hn; right; exact Hx].
   Qed.
